@@ -57,6 +57,7 @@ def run(ctx):
                 cov["per_thread_wire_logs_checked_by_retry_ok"] = summ.get("wire_logs", 0)
                 cov["transport_errors_on_the_wire"] = summ.get("wire_errors", 0)
                 cov["waits_compared_with_the_model"] = summ.get("waits", 0)
+                cov["blocks_handed_to_listeners_checked_exactly_once"] = summ.get("blocks", 0)
                 if not summ.get("replayed", 0) or not summ.get("wire_errors", 0):
                     ctx.broken.append({"kind": "correspondence", "what": "no scenario was replayed on the thread-level model / no transport error "
                                        "was seen on the wire: the tie of C12_same_transaction_retried is empty", "detail": str(summ)})
@@ -68,6 +69,8 @@ def run(ctx):
                                "the tower knows the node is down, whether the tower recovers with the node back and two polls, final tables vs the twin, "
                                "last_known_block vs tip; per thread: the node's wire log (requests incl. those that hit the transport error) checked by "
                                "Coq's retry_ok and compared with the replay on ConcReach, the locks kept at each wait (hook H3) compared with the replay. "
+                               "plus monitor_chain ITSELF (1 s polling interval) over a 4-block backlog with a download that stalls 1.7 s (thorough: at each "
+                               "position) next to its twin; every scenario: the blocks handed to the real listeners are consecutive (Coq's `consecutive`). "
                                "non-trivial = the outage actually hit an RPC")
                 with open(out_f) as f:
                     ls = f.read().splitlines()
